@@ -10,6 +10,7 @@ CONSTANTS
   AllowCancel = FALSE
   EarlyExits = FALSE
   MaxConc = 9
+  Spawn = "go"
   Record = TRUE
 SPECIFICATION SimSpec
 INVARIANTS SingleSend ReturnsOnce SuccessMeansQuorum ErrorMeansNoQuorum ErrorIsReal ChannelErrorIsReal
